@@ -29,7 +29,7 @@ def main():
         sh(["git", "-C", "/repo", "worktree", "add", "-q", "--detach", wt, "HEAD"])
         try:
             if m.get("revert_commit"):
-                r = sh(["git", "-C", wt, "revert", "--no-commit", m["revert_commit"]])
+                r = sh(["git", "-C", wt, "revert", "--no-commit"] + m["revert_commit"].split())
                 if r.returncode != 0:
                     rows.append((m["id"], "-", "-", "BAD-PATTERN(revert failed: %s)" % r.stdout[-200:])); print(rows[-1]); continue
             else:
